@@ -95,6 +95,7 @@ def locate_specs(draw, tier):
     spec["levels"] = lev
     spec["adjust_values"] = draw(st.sampled_from([False, False, True]))
     spec["tolerance"] = draw(st.sampled_from([None, None, 1e-3, 1e-8]))
+    spec["ls_params"] = draw(st.sampled_from([None, None, None, {}, {"max_nfev": 25}, {"method": "trf", "loss": "linear"}]))  # documented pass-through to scipy
     spec["via"] = draw(st.sampled_from(["locate_droplets", "locate_droplets", "tracker"]))
     del ra
     return spec
@@ -177,7 +178,7 @@ class C09(Property):
         "finite fields (noise, constants, binary, smooth waves, blobs with sharp or diffuse edges, gradients; scales 1e-6..1e6, offsets "
         "up to +-1e6) on every grid family with 1-cell to moderate shapes x threshold (rules, numbers inside / at the edge / outside "
         "the data range) x minimal_radius (-inf, 0, small, huge) x interface_width (None, 0, one cell, large) x modes 0-4 x refine "
-        "on/off x refine_args (default levels, data levels, None, partly None; adjust_values; tolerance); rendering of every droplet "
+        "on/off x refine_args (default levels, data levels, None, partly None; adjust_values; tolerance; least_squares_params); rendering of every droplet "
         "class on every compatible grid (centres on cell centres, outside the box, radius 0 to 3 box sizes, widths 0 to 100 box "
         "sizes, amplitudes up to +-1); tracking of arbitrary time courses (both methods, all cut-offs, empty frames); and documented "
         "invalid requests (modes in 1-D, droplet/grid dimension mismatch, non-ScalarField input, unknown tracking method). Oracle: "
@@ -241,6 +242,8 @@ class C09(Property):
             ra["adjust_values"] = True
         if spec["tolerance"] is not None:
             ra["tolerance"] = spec["tolerance"]
+        if spec.get("ls_params") is not None:
+            ra["least_squares_params"] = dict(spec["ls_params"])  # one dict for all candidates / frames of this request, as a user would pass it
         field = ScalarField(grid, data)
         ctx.cls("locate", spec["grid"]["family"], f"refine:{spec['refine']}", f"modes:{modes}", f"field:{spec['field']['kind']}")
         if spec["via"] == "tracker":
@@ -253,7 +256,13 @@ class C09(Property):
             res = tr.data.emulsions[-1]
             iw_used = None
         else:
-            res = locate_droplets(field, interface_width=iw, refine_args=dict(ra) if ra else None, **kw)
+            shared = dict(ra) if ra else None
+            if shared is not None and "least_squares_params" in shared and spec["refine"] and grid.dim >= 2:
+                # a user who keeps one options dict for several analyses: the same dict first serves a request with another
+                # droplet model (other number of fit parameters), then the judged request
+                ctx.cls("shared-options-dict")
+                locate_droplets(field, interface_width=iw, refine_args=shared, **{**kw, "modes": 0 if modes else 2})
+            res = locate_droplets(field, interface_width=iw, refine_args=shared, **kw)
             iw_used = iw
         if not ctx.require(isinstance(res, Emulsion), "locate:type", f"returned {type(res).__name__}"):
             return
